@@ -114,7 +114,7 @@ def stepLine (s : DSt) (line : String) : DSt × String :=
   | ["c", "recv"] => (s, showPSt (clientReceive s.msg []))
   | "c" :: "recvinj" :: es => (s, showPSt (clientReceive s.msg (es.map parseElem)))
   | ["wf"] =>
-    (s, s!"write={offendingWrite T} parse={offendingParse T} clash={offendingClash T} toxml={offendingToXml T} rows={T.rows.length}")
+    (s, s!"write={offendingWrite T} parse={offendingParse T} clash={offendingClash T} toxml={offendingToXml T} spec={specDisagreements T.rows} unknown-to-spec={specUnknown T.rows} rows={T.rows.length}")
   | _ => (s, "bad-op")
 
 def main : IO Unit := run ({ msg := Msg.empty } : DSt) stepLine
